@@ -26,7 +26,7 @@ ASSUMPTIONS = ['not every source comment has to be captured (documented limitati
                'flagged; where a comment is re-emitted is free as long as the re-parse agrees',
                'the "ES5 parser reads the output as the same tree" clause uses refjs on inputs refjs reads as the same tree']
 BUDGET_S = {'quick': 100, 'thorough': 900}
-REQUIRED_HITS = ['parse_pair', 'comment_audited', 'pretty_roundtrip', 'keyword_property_comments']
+REQUIRED_HITS = ['parse_pair', 'comment_audited', 'pretty_roundtrip', 'keyword_property_comments', 'comment_slot']
 FLOOR = {'quick': 1500, 'thorough': 20000}
 
 
@@ -371,6 +371,10 @@ def run(ctx):
         if ctx.out_of_time():
             break
     progs.report()
+    for k, text in enumerate(slot_texts()):
+        if k % ctx.nshards == ctx.shard:
+            check(ctx, text, 'slot')
+            ctx.hit('comment_slot')
     # comments on both sides of one token: reserved words as property names (where they are plain names: no
     # restricted production, no regex after them), with what follows them on the same or the next line
     words = ['return', 'throw', 'break', 'continue', 'if', 'in', 'new', 'typeof', 'function', 'get', 'catch', 'x']
@@ -395,6 +399,33 @@ def run(ctx):
                         continue
                     check(ctx, tpl % (g1, w, g2), 'keyword_key_comments')
                     ctx.hit('keyword_property_comments')
+
+
+# one comment in a slot that belongs to an unusual node or to no node at all ('@' marks the slot)
+SLOT_TEMPLATES = [
+    'x = [1, @, 2];', 'x = [@, 1];', 'x = [1, , @, 2];', 'x = [@];', 'x = [@,];', 'x = [ , @];', 'f(@);', 'f(a, @ b);', 'f(a @);',
+    'x = {@};', 'x = {a: 1, @};', 'x = {a @: 1};', 'x = {a: @ 1};', 'x = {get @ a() {}};', 'x = {get a(@) {}};',
+    'x = {set a(v @) {}};', 'function f(@) {}', 'function f(a, @ b) {}', 'function f() {@}', 'function @ f() {}',
+    'x = function @ () {};', 'x = a ? @ b : c;', 'x = a ? b @ : c;', 'x = a ? b : @ c;', 'if (@ a) b;', 'if (a @) b;',
+    'if (a) b; @ else c;', 'if (a) b; else @ c;', 'for (@ ; ; ) x;', 'for (a; @ b; c) x;', 'for (a; b; @) x;', 'for (a; b; c @) x;',
+    'for (var @ k in o) x;', 'for (k @ in o) x;', 'while (@ a) x;', 'do x; @ while (a);', 'do x; while (a) @;',
+    'switch (a) {@}', 'switch (a) { case @ 1: x; }', 'switch (a) { case 1 @: x; }', 'switch (a) { case 1: x; @ default: y; }',
+    'switch (a) { default @: y; }', 'try {@} catch (e) {}', 'try {} catch (@ e) {}', 'try {} catch (e @) {}', 'try {} @ finally {}',
+    'l @: x;', '@ l: x;', 'new @ F(a);', 'new F @ (a);', 'x = a @ . b;', 'x = a[@ 0];', 'x = a[0 @];', 'x = (@ a);', 'x = (a @);',
+    'x = @ -a;', 'x = - @ a;', 'x = a @ ++;', 'x = ++ @ a;', 'x = typeof @ a;', 'x = a @ , b;', 'var @ a;', 'var a @ = 1;',
+    'var a = 1 @, b;', 'var a = 1, @ b;', 'x = a @ instanceof b;', 'x = a in @ b;', 'debugger @;', '@;', '{@}', '{ ; @ }',
+    'with (@ a) x;', 'throw @ a;', 'x = /re/ @ .test(a);', 'x = "s" @ .length;', 'x = 1 @ .toFixed();',
+]
+
+
+def slot_texts():
+    for tpl in SLOT_TEMPLATES:
+        for c in ('/* c */', '/* c\n d */', '// c\n', '/**/'):
+            if c.startswith('//') or '\n' in c:
+                # a line break in the slot changes what is derivable around restricted productions: those texts
+                # are judged like every other (rejected by both sides or skipped as known)
+                pass
+            yield tpl.replace('@', ' ' + c + ' ')
 
 
 def replay(ctx, witness):
